@@ -515,6 +515,17 @@ func (e *Engine) Generate(r *core.Rand, prop string, tier string) core.Trace {
 		}
 	}
 	t.Probes = append(t.Probes, 0, r.Uint64())
+	// further flag bits on executable sections (drawn late, so that the rest of
+	// the run is what it was before): code that is also writable (code placed
+	// in RAM), mergeable, carries strings, link info or a group bit is code all
+	// the same - what decides is executable, PROGBITS, non-empty, address
+	if r.Chance(1, 3) {
+		for i := range t.Desc.Secs {
+			if t.Desc.Secs[i].Flags&elfref.SHFExec != 0 && r.Chance(1, 2) {
+				t.Desc.Secs[i].Flags |= []uint64{elfref.SHFWrite, 0x10, 0x20, 0x40, 0x80, 0x200, elfref.SHFWrite | 0x10}[r.Intn(7)]
+			}
+		}
+	}
 	// drawn last, so that every other choice of the run is what it was before
 	// this tier existed: one C20 run in sixteen goes through the real binary
 	if prop == "C20" && t.Read == nil && r.Chance(1, 16) {
